@@ -556,6 +556,21 @@ func smbC04Case(c *h.Ctx, mk func() command_interface.CommandInterface, k *smbCa
 			return fmt.Sprintf("%s %v %s", smbHex(out), e2, pp)
 		}, k.sample())
 	}
+	smbReusedReceiver(c, mk, k, site, b1)
+	// a structure constructed NOW is the default structure, whatever was encoded or decoded before
+	{
+		fresh := mk()
+		fresh.Init()
+		def, derr, dp := smbMarshalInMessage(fresh)
+		c.Exec(1)
+		sig := fmt.Sprintf("%s %v %s", smbHex(def), derr, dp)
+		if was, ok := smbDefaultEnc[site]; !ok {
+			smbDefaultEnc[site] = sig
+		} else if was != sig {
+			c.Fail(site, "default-structure-depends-on-history", fmt.Sprintf("a freshly constructed structure encodes to %.160s now and encoded to %.160s at the start of the run", sig, was), k.sample())
+			smbDefaultEnc[site] = sig
+		}
+	}
 	b2, merr2, p := smbMarshalInMessage(y)
 	c.Exec(1)
 	if p != "" || merr2 != nil {
@@ -575,6 +590,80 @@ func smbC04Case(c *h.Ctx, mk func() command_interface.CommandInterface, k *smbCa
 		c.Fail(site, "reencode:fresh-buffers", fmt.Sprintf("Marshal of the decoded fields: %s, first encoding: %s", smbHex(b3), smbHex(b1)), k.sample())
 	}
 	return nil
+}
+
+// smbReusedReceiver decodes the encoding into ONE long-lived structure per command type (only judged where the fresh decode
+// was right): first truncated prefixes of the same encoding (short read, then retry), then the full encoding; the fields must
+// be those a fresh structure gets. The field values the receiver held after the PREVIOUS case are kept by value (as an
+// application would: saved := rx.Field) and re-read afterwards: a later decode must not change them.
+type smbReuse struct {
+	obj  command_interface.CommandInterface
+	kept map[string]reflect.Value // field name -> copy of the field value (slice headers, not contents)
+	snap map[string]string        // field name -> its JSON when it was kept
+	of   interface{}
+}
+
+var smbReused = map[string]*smbReuse{}
+
+var smbDefaultEnc = map[string]string{}
+
+func smbKeepFields(x command_interface.CommandInterface) (map[string]reflect.Value, map[string]string) {
+	kept, snap := map[string]reflect.Value{}, map[string]string{}
+	v := reflect.ValueOf(x).Elem()
+	for i := 0; i < v.NumField(); i++ {
+		ft := v.Type().Field(i)
+		if ft.Name == "Command" || !ft.IsExported() || ft.Anonymous {
+			continue
+		}
+		cp := reflect.New(ft.Type).Elem()
+		cp.Set(v.Field(i))
+		j, err := json.Marshal(cp.Interface())
+		if err != nil {
+			continue
+		}
+		kept[ft.Name], snap[ft.Name] = cp, string(j)
+	}
+	return kept, snap
+}
+
+func smbReusedReceiver(c *h.Ctx, mk func() command_interface.CommandInterface, k *smbCase, site string, b1 []byte) {
+	r := smbReused[site]
+	if r == nil {
+		r = &smbReuse{obj: mk()}
+		r.obj.Init()
+		smbReused[site] = r
+	}
+	for _, cut := range h.Cuts(len(b1)) {
+		h.Guard(func() { r.obj.Unmarshal(append([]byte{}, b1[:cut]...)) })
+	}
+	var err error
+	p := h.Guard(func() { _, err = r.obj.Unmarshal(append([]byte{}, b1...)) })
+	c.Exec(1)
+	if p != "" || err != nil {
+		c.Fail(site, "reused-receiver:error", fmt.Sprintf("after truncated attempts, the encoding a fresh structure decodes is refused by a structure that held the previous value: %v %s", err, p), k.sample())
+		delete(smbReused, site)
+		return
+	}
+	for name, cp := range r.kept {
+		if j, e := json.Marshal(cp.Interface()); e == nil && string(j) != r.snap[name] {
+			c.Fail(site, "earlier-decoded-value-changed:"+name, fmt.Sprintf("field %s kept by value after the previous decode read %.120s and reads %.120s after the next decode into the same structure", name, r.snap[name], j),
+				map[string]interface{}{"previous": r.of, "current": k.sample()})
+			break
+		}
+	}
+	// the property speaks of decoding into a FRESH structure: what a non-fresh receiver keeps (optional fields that are absent
+	// from the new encoding, lists that are appended to) is reported as drift only
+	for i := range k.Fields {
+		f := &k.Fields[i]
+		for j := range f.Sets {
+			if eq, got, _ := smbLoad(r.obj, &f.Sets[j]); !eq {
+				c.Drift(site, "reused-receiver:"+f.Name, fmt.Sprintf("%s: stored %s, decoded %s into a structure that held the previous value", strings.Join(f.Sets[j].P, "."), f.Sets[j].want(), got), k.sample())
+				break
+			}
+		}
+	}
+	r.kept, r.snap = smbKeepFields(r.obj)
+	r.of = k.sample()
 }
 
 // ---- c04.record: random programs for TLC to judge (spec/TraceSMB.tla) ----
